@@ -80,16 +80,17 @@ def show_set(s):
     return "{%s}" % ", ".join("U+%04X..U+%04X" % (a, b) if a != b else "U+%04X" % a for a, b in s)
 
 
-def pred_true_set(ctx, fn, cs, depth=0):
+def pred_true_set(ctx, fn, cs, depth=0, c_param=1):
     """set of characters (subset of cs) for which the crate-local predicate fn(c: char) -> bool
-    returns true, by abstract interpretation of its body; None if undecided"""
+    (or a capture-free closure |c: &char| with c_param = 2) returns true, by abstract
+    interpretation of its body; None if undecided"""
     if depth > 3:
         return None
     se = ctx.flat.run(fn)
-    if se is None or se.body.arg_count != 1:
+    if se is None or se.body.arg_count != c_param:
         return None
     body = se.body
-    c_term = ("param", 1)
+    c_term = ("param", c_param)
     true_set = []
     failed = []
 
@@ -196,12 +197,139 @@ def check(ctx, rep):
     se = ctx.wrap.run(INNER_FN)
     body = se.body
     loops = util.for_loops(ctx, se)
-    if len(loops) != 1:
-        rep.violation("length-gate", INNER_FN, "shape", "expected one loop over the characters, found %d" % len(loops), body.loc())
-        return
-    lp = loops[0]
     world = ranges.World(ctx)
     pr = world.prover(INNER_FN)
+    if len(loops) == 0 and check_bulk(ctx, rep, INNER_FN, se, pr):
+        pass
+    elif len(loops) != 1:
+        rep.violation("length-gate", INNER_FN, "shape", "expected one loop over the characters, found %d" % len(loops), body.loc())
+        return
+    else:
+        if check_loop(ctx, rep, INNER_FN, se, pr, loops[0]) is False:
+            return
+    check_tail(ctx, rep, INNER_FN)
+
+
+def check_bulk(ctx, rep, INNER_FN, se, pr):
+    """the validating function written without a character loop: length gate; the first
+    offending character found by `s.chars().find(pred)` and reported; then the bytes copied in
+    bulk into the front of a zeroed array and upper-cased in place (all ASCII at that point, so
+    byte k is character k).  Emits the same obligations as the loop form; returns False when
+    the body is not of this shape."""
+    fb = ctx.fb
+    body = se.body
+    calls = [se.term_info[bb] for bb in sorted(se.term_info) if se.term_info[bb].get("k") == "call"]
+    finds = [c for c in calls if c["name"] == "std::iter::Iterator::find"]
+    if len(finds) != 1:
+        return False
+    fd = finds[0]
+    fbb = fd["site"][1]
+    it = se.call_old.get((fd["site"], 0))
+    it = strip(it) if it is not None else None
+    cl = fd["locargs"][1] if len(fd.get("locargs", ())) > 1 else ("?",)
+    over_chars = it is not None and util.is_call(it, "core::str::<impl str>::chars") and strip(it[2][0]) == ("param", 1)
+    # ---- length gate
+    arr_len = None
+    for f in fb.adt_fields(NS):
+        t = fb.ty(f["ty"])
+        if t.k == "array":
+            arr_len = t.len
+    anchor = it[3][1] if over_chars else fbb
+    lr = pr.rng(("len", ("param", 1)), anchor)
+    rep.check(arr_len == MAXLEN, "length-gate", INNER_FN, "constant", "array length = %s" % arr_len, "text array length is %s, documented 16" % arr_len)
+    rep.check(lr == (1, MAXLEN), "length-gate", INNER_FN, "dominates", "on every path to the character scan the byte length is in [%s, %s]" % lr, "the character scan is reachable with a byte length in [%s, %s] (must be exactly 1..=16 bytes)" % lr, body.loc())
+    pre = cfg.reachable(body, cut_blocks=[anchor])
+    bad = []
+    for bi in pre:
+        for s_ in body.blocks[bi]["stmts"]:
+            if s_["k"] == "assign" and s_["rv"]["k"] == "aggregate" and s_["rv"].get("ak") == "adt":
+                pth, vn = s_["rv"]["path"], s_["rv"]["vname"]
+                if pth == "std::result::Result" and vn == "Ok":
+                    bad.append("Ok")
+                if pth == "error::NormalizedStringError" and vn != "StringTooLong":
+                    bad.append(vn)
+                if pth == NS:
+                    bad.append("NormalizedString")
+    has_tl = any(s_["k"] == "assign" and s_["rv"]["k"] == "aggregate" and s_["rv"].get("vname") == "StringTooLong" for bi in pre for s_ in body.blocks[bi]["stmts"])
+    rep.check(has_tl and not bad, "length-gate", INNER_FN, "too-long-or-empty", "over-long and empty input => Err(StringTooLong), nothing else before the character scan", "before the character scan the function can produce %s / no StringTooLong" % bad, body.loc())
+    # ---- first offender: find(pred) yields the first character for which pred holds
+    sw = se.term_info.get(body.blocks[fbb]["term"]["target"], {})
+    some_t = none_t = None
+    if sw.get("k") == "switch" and strip(sw["discr"]) == ("discr", strip(fd["term"])):
+        tg = dict(sw["targets"])
+        some_t = tg.get(1)
+        none_t = tg.get(0, sw["otherwise"] if 1 in tg else None)
+    rep.check(over_chars and some_t is not None and none_t is not None, "first-offender", INNER_FN, "chars-in-order", "s.chars().find(not allowed): characters are tested in order, the first offender ends the scan", "the characters are not scanned by s.chars().find(..) with both outcomes handled", body.loc(fbb))
+    if not (over_chars and some_t is not None and none_t is not None):
+        return True
+    errs = {bi: se.assigns[(bi, si)][1] for bi, si, s_ in util.blocks_constructing(body, "error::NormalizedStringError", "CharacterNotAllowed")}
+    payload = ("field", ("downcast", strip(fd["term"]), 1), 0)
+    good = bool(errs) and all(strip(v[4][0]) == payload and cfg.must_pass_edge(body, (body.blocks[fbb]["term"]["target"], some_t), bi) for bi, v in errs.items())
+    rep.check(good, "first-offender", INNER_FN, "reported-char", "Err(CharacterNotAllowed(c)) carries the character find() returned", "the reported character is not the offending character found by the scan", body.loc())
+    # the Some arm leads only to that error; the array is built on the None arm only
+    some_reach = cfg.reachable(body, start=some_t)
+    ns_blocks = [bi for bi, _, _ in util.blocks_constructing(body, NS)]
+    rep.check(not any(bi in some_reach for bi in ns_blocks) and all(cfg.must_pass_edge(body, (body.blocks[fbb]["term"]["target"], none_t), bi) for bi in ns_blocks), "char-set", INNER_FN, "total", "an offender leads to the error, no offender to the stored text", "a string with an offending character can still be stored", body.loc())
+    rej = pred_true_set(ctx, cl[2], ALL, c_param=2) if cl[0] == "agg" and cl[1] == "closure" and not cl[4] else None
+    if rej is None:
+        rep.undecided("char-set", INNER_FN, "accepted-set", "cannot decide the character set of the scan predicate", body.loc())
+        accept = None
+    else:
+        accept = norm_set(minus(ALL, rej))
+        rep.check(accept == ACCEPT, "char-set", INNER_FN, "accepted-set", "accepted characters = %s" % show_set(accept), "accepted character set is %s; wrongly accepted %s, wrongly refused %s" % (show_set(accept), show_set(minus(accept, ACCEPT)), show_set(minus(ACCEPT, accept))), body.loc())
+    # ---- normal form: A = [0; 16]; V = first len bytes of A; V.copy_from_slice(s.as_bytes()); V.make_ascii_uppercase()
+    arrs = [(loc, v) for (bi, si), (loc, v) in se.assigns.items() if loc[0] == "local" and v[0] == "repeat" and v[1][:2] == ("int", 0) and v[2] == MAXLEN]
+    rep.check(len(arrs) == 1, "normal-form", INNER_FN, "zero-padded", "the array starts as [0; 16] (zero padding) and only its first len bytes are written", "the text array is not zero-initialised")
+    good = False
+    desc = "?"
+    if len(arrs) == 1:
+        A = arrs[0][0]
+        views = [c for c in calls if (c["name"].endswith("<impl [T]>::split_at_mut") or c["name"].endswith("::index_mut")) and c["locargs"][0] == ("ref", A, True)]
+        others_on_A = [c for c in calls if c not in views and any(a == ("ref", A, True) for a in c.get("locargs", ()))]
+
+        def view_term(c):
+            if c["name"].endswith("split_at_mut") and util.numnorm(c["args"][1]) == ("len", ("param", 1)):
+                return ("field", strip(c["term"]), 0)
+            if c["name"].endswith("::index_mut"):
+                r = strip(c["args"][1])
+                if r[0] == "agg" and r[2] == "std::ops::RangeTo" and util.numnorm(r[4][0]) == ("len", ("param", 1)):
+                    return strip(c["term"])
+                if r[0] == "agg" and r[2] == "std::ops::Range" and util.numnorm(r[4][0])[:2] == ("int", 0) and util.numnorm(r[4][1]) == ("len", ("param", 1)):
+                    return strip(c["term"])
+            return None
+
+        if len(views) == 1 and not others_on_A and view_term(views[0]) is not None:
+            V = view_term(views[0])
+            onV = [c for c in calls if c.get("locargs") and c["locargs"][0][0] == "ref" and c["locargs"][0][2] and strip(c["locargs"][0][1]) == V]
+            names = [c["name"].split("::")[-1] for c in onV]
+            desc = "prefix view written by %s" % names
+            if names == ["copy_from_slice", "make_ascii_uppercase"]:
+                src = strip(onV[0]["args"][1])
+                src_ok = util.is_call(src, "core::str::<impl str>::as_bytes") and strip(src[2][0]) == ("param", 1)
+                ordered = onV[0]["site"][1] < onV[1]["site"][1] and cfg.must_pass_block(body, onV[0]["site"][1], onV[1]["site"][1])
+                # no other store through the view
+                stray = [1 for (bi, si), (loc, v) in se.assigns.items() if any(x == V for x in walk(strip(loc))) ]
+                good = src_ok and ordered and not stray and accept == ACCEPT
+                desc = "array[..len] = s.as_bytes() upper-cased in place (every accepted character is one ASCII byte)"
+    rep.check(good, "normal-form", INNER_FN, "stored-byte", desc, "stored bytes are not the ASCII upper case of the characters at their positions: " + desc, body.loc())
+    oks = [(bi, si) for bi, si, s_ in util.blocks_constructing(body, NS)]
+    good = False
+    if len(oks) == 1 and len(arrs) == 1:
+        loc, v = se.assigns[oks[0]]
+        tys = [fb.ty(f["ty"]).k for f in fb.adt_fields(NS)]
+        arr_v = [x for x, t in zip(v[4], tys) if t == "array"]
+        len_v = [x for x, t in zip(v[4], tys) if t == "int"]
+        ln = util.numnorm(len_v[0]) if len_v else None
+        len_ok = ln is not None and ln[0] == "cast" and ln[3] == "u8" and ln[2] == ("len", ("param", 1))
+        cur = se.read(se.in_state.get(oks[0][0], {}), arrs[0][0])
+        good = len_ok and bool(arr_v) and strip(arr_v[0]) == strip(cur)
+    rep.check(good, "normal-form", INNER_FN, "length-field", "length = byte length (<= 16, fits u8), s = the filled array", "the length stored is not the byte length of the input / the array stored is not the filled one", body.loc())
+    return True
+
+
+def check_loop(ctx, rep, INNER_FN, se, pr, lp):
+    fb = ctx.fb
+    body = se.body
     # ------------------------------------------------------------ length gate (by dominating facts)
     arr_len = None
     for f in fb.adt_fields(NS):
@@ -244,7 +372,7 @@ def check(ctx, rep):
                 slot_term = ("field", item, 0)
     rep.check(mode is not None, "first-offender", INNER_FN, "chars-in-order", "characters are visited by s.chars() in order, position k of the text goes to position k of the array (%s), early return on the first offender" % mode, "characters are not traversed by s.chars().enumerate() / array.iter_mut().zip(s.chars()) in order", body.loc(lp["next_bb"]))
     if mode is None:
-        return
+        return False
     # ------------------------------------------------------------ char set by abstract interpretation
     store_blocks = {}
     for (bi, si), (loc, v) in se.assigns.items():
@@ -342,6 +470,11 @@ def check(ctx, rep):
     rep.check(good, "normal-form", INNER_FN, "length-field", "length = byte length (<= 16, fits u8), s = the filled array", "the length stored is not the byte length of the input", body.loc())
     zero_init = any(v[0] == "repeat" and v[1][:2] == ("int", 0) and v[2] == MAXLEN for (bi, si), (loc, v) in se.assigns.items())
     rep.check(zero_init, "normal-form", INNER_FN, "zero-padded", "the array starts as [0; 16] (zero padding)", "the text array is not zero-initialised")
+    return True
+
+
+def check_tail(ctx, rep, INNER_FN):
+    fb = ctx.fb
     INNER = INNER_FN
     # ------------------------------------------------------------ constructors delegate
     new_inst = [p for p in fb.bodies if p.startswith(NS + "::new") and "inner" not in p]
